@@ -79,6 +79,11 @@ def lift_case_st(draw):
                    "vals": draw(st.lists(lval, min_size=vs.nelem(sb), max_size=vs.nelem(sb)))}
         return {"group": group, "op": op, "v": v, "rhs": rhs, "logic_dtype": ldt}
     v = draw(vs.vector_specs(units=[ua], dtypes=[dt], shape=sa, nvec=nvec, specials=(group == "cmp")))   # NaN compares false
+    if group == "cmp" and dt.startswith("float") and draw(st.integers(0, 2)) == 0:
+        # one entry of one component is NaN (every comparison with it is false, also <= and >=)
+        c = v["comps"][draw(st.integers(0, nvec - 1))]
+        if c["vals"]:
+            c["vals"][draw(st.integers(0, len(c["vals"]) - 1))] = "nan"
     case = {"group": group, "v": v}
     if group == "unary":
         case["op"] = draw(st.sampled_from(["neg", "pow"]))
@@ -124,6 +129,11 @@ def lift_case_st(draw):
     if nvec_long:
         rk = draw(st.sampled_from(["nd", "nd", "A"]))
         case["rhs_has_nvec_entries"] = True
+    elif group == "inplace" and draw(st.integers(0, 4)) == 0:
+        # a Vector with another number of components: refused, and the left operand as it was
+        n2 = draw(st.sampled_from([k for k in (1, 2, 3) if k != nvec]))
+        case["rhs"] = draw(vs.vector_specs(units=[ub if case["op"] in "+-" and draw(st.booleans()) else ua], dtypes=[dt], shape=sa, nvec=n2))
+        return case
     if group == "inplace" and op_is_muldiv(case["op"]) and draw(st.integers(0, 5)) == 0:
         # the right-hand side is one of the Vector's own components (v *= v.x, v /= v.y)
         case["rhs"] = {"k": "comp", "c": draw(st.integers(0, nvec - 1))}
@@ -133,7 +143,8 @@ def lift_case_st(draw):
         case["rhs"] = {"k": "perm", "p": draw(st.permutations(list(range(nvec))))}
         return case
     if rk == "V":
-        n2 = nvec if draw(st.integers(0, 5)) else draw(st.integers(1, 3))
+        # (another number of components must be refused - for in-place operators before anything is updated)
+        n2 = nvec if draw(st.integers(0, 2 if group == "inplace" else 5)) else draw(st.integers(1, 3))
         case["rhs"] = draw(vs.vector_specs(units=[ub], dtypes=[dtb], shape=sb, nvec=n2))
     elif rk in ("A", "Q"):
         case["rhs"] = draw(vs.array_specs(kind=rk, units=[ub], dtypes=[dtb], shape=sb))
@@ -141,6 +152,8 @@ def lift_case_st(draw):
         case["rhs"] = draw(vs.array_specs(kind="nd", dtypes=[dtb], shape=sb))
     else:
         case["rhs"] = {"k": rk, "v": draw(vs.magnitudes("float64", 1, allow_zero=False))[0]}
+        if rk == "num" and (draw(st.booleans()) or dt.startswith("int")):
+            case["rhs"]["v"] = draw(st.sampled_from([2, 3, 10, -4, 1]))          # a python int stays an integer operand
         if rk == "num" and draw(st.booleans()):
             case["rhs"]["v"] = draw(st.sampled_from([1, 2, -3]))
         if rk == "npf":
